@@ -2159,6 +2159,13 @@ pick:
 		break;
 	case DISPATCH_OP_ERR:
 		_dispatch_stream_cleanup_operations(stream, op->channel);
+		// Operations of other channels on this descriptor may be queued
+		// behind the failed one: keep the stream going for them
+		if (_dispatch_stream_operation_avail(stream) &&
+				!stream->source_running) {
+			dispatch_async_f(stream->dq, stream->dq,
+					_dispatch_stream_queue_handler);
+		}
 		break;
 	case DISPATCH_OP_FD_ERR:
 		_dispatch_fd_entry_retain(fd_entry);
